@@ -7,6 +7,17 @@ open SigpyVerif SigpyVerif.Proto SigpyVerif.C12
 def fmtState (maxIter : Int) (tol : Rat) (s : State CVec Rat) : String :=
   s!"x={fmtCRatList s.x.toList} r={fmtCRatList s.r.toList} p={fmtCRatList s.p.toList} rz={fmtRat s.rzold} resid2={fmtRat s.resid2} npd={fmtBool s.npd} iter={s.iter} alias={fmtBool s.alias} done={fmtBool (done ratOps maxIter tol s)}"
 
+def natBits (n : Nat) : Nat := if n = 0 then 0 else n.log2 + 1
+
+def ratBits (q : Rat) : Nat := max (natBits q.num.natAbs) (natBits q.den)
+
+/-- largest `int.bit_length()` of a numerator or denominator in `x`, `r`, `p` (the harness stops a run of the
+    real class at 40000 bits — a broken recurrence doubles the size of the fractions with every update — and so
+    does the machine, now that it follows the source) -/
+def stateBits (s : State CVec Rat) : Nat :=
+  let f := fun (acc : Nat) (z : CRat) => max acc (max (ratBits z.1) (ratBits z.2))
+  s.p.foldl f (s.r.foldl f (s.x.foldl f 0))
+
 def parseP (n : Nat) (Ps : String) : Option (Option (CVec → CVec)) :=
   if Ps == "none" then some none else
   match Ps.splitOn ":" with
@@ -58,7 +69,8 @@ def handle (toks : List String) : String :=
             if divByZero Af maxIter s then ("err zerodiv" :: acc).reverse
             else
               let s' := update ratOps Af P maxIter s
-              go f s' (fmtState maxIter tol s' :: acc)
+              if stateBits s' > 40000 then ("err fraction-blowup" :: fmtState maxIter tol s' :: acc).reverse
+              else go f s' (fmtState maxIter tol s' :: acc)
         let s0 := init ratOps Af P b x maxIter
         "ok " ++ " # ".intercalate (go k.toNat s0 [fmtState maxIter tol s0])
     | _, _, _, _, _, _, _, _ => "err bad-op"
